@@ -63,6 +63,8 @@ type Setup struct {
 	Invariant func(w *World) *Violation
 	// OnQuiescent is called at the end of every phase (in the root goroutine; use w.Observer for broker access).
 	OnPhaseEnd func(w *World, phase int)
+	// Cleanup is called when the run is over (scratch files etc.).
+	Cleanup func()
 }
 
 // World is one simulated run.
@@ -637,6 +639,9 @@ type Outcome struct {
 // Run executes one plan inside a synctest bubble.
 func Run(t *testing.T, plan *Plan, setup *Setup) (out *Outcome) {
 	out = &Outcome{}
+	if setup != nil && setup.Cleanup != nil {
+		defer setup.Cleanup()
+	}
 	defer func() {
 		if r := recover(); r != nil {
 			msg := fmt.Sprint(r)
